@@ -7,14 +7,15 @@ ID = 'C03'
 GENERATORS = ['gen_font']            # Model/Font.v (reused for glyphs_from_u8_data) needs Gen/FontConsts.v
 COQ_TARGETS = ['Props/C03.vo', 'Run/RunC03.vo']
 PROPS_MODULE = 'Props.C03'
-THEOREMS = ['cost_bound', 'cost_bound_sp', 'prim_ticks_bound', 'ticks_bound_scroll', 'tick_version_same_state', 'fixed_arms_only',
+THEOREMS = ['cost_bound', 'cost_bound_sp', 'prim_ticks_bound', 'ticks_bound_scroll', 'tick_version_same_state', 'fixed_arms_only', 'sp_arms_only',
             'rep_linear', 'rep_refuted', 'hexmacro_refuted', 'macro_recursion_refuted', 'sixel_repeat_linear', 'sixel_raster_refuted',
             'avatar_repeat_bound', 'glyph_iters_bound', 'window_ticks_bound']
 SWEEP_LEMMAS = []
 TRUSTED = ['Coq 8.16.1 kernel + vm_compute (model evaluation in stage C); no axioms (Print Assumptions: closed)',
            'Model/Cost.v re-states the loops of Model/TermCore.v / AnsiTok.v with counters (tick_version_same_state: same state); the arms changed by the '
            'fix: commits are hand-modelled and tied by stage C (full state comparison incl. a content hash, allocation one-sided)',
-           'harness/src/c03.rs (observer: wall time, rows/cells before and after, buffer/layer height, caret, widest row, content hash, peak RSS growth)',
+           'harness/src/c03.rs (observer: wall time, rows/cells before and after, buffer/layer height, caret, widest row, content hash, peak RSS growth; kind c03st: '
+           'the observation vector of harness/src/c09.rs (Term::obs) after the entry and after the probe, row lengths, tab stops)',
            'process limits of the worker (5 s wall clock, 1 GiB address space, default 8 MiB main-thread stack / 2 MiB sixel threads)']
 UNMODELLED = ['real time and memory (the theorems count iterations and allocated rows/cells; Vec::insert/remove count as one step)',
               'REP per-iteration weight is an upper estimate (1 + a scroll when margins are set); REP ticks are not part of ticks_bound',
@@ -22,7 +23,8 @@ UNMODELLED = ['real time and memory (the theorems count iterations and allocated
               'macro replay cost (only characters replayed, nesting by fuel); OSC, APS, music strings: linear scans, not modelled',
               'binary loaders (XBin, IDF, Tundra, ADF, BIN, IcyDraw): no cost model, stage S only',
               'sixel decode cost beyond the repeat loop and the raster request; font loaders beyond glyphs_from_u8_data']
-ASSUMPTIONS = ['the state satisfies the C09 invariant Inv09 (every state reachable without a text-area resize does: Props/C09.v c09_stream)',
+ASSUMPTIONS = ['the state satisfies the C09 invariant Inv09 (every state reachable without a text-area resize does: Props/C09.v c09_stream); states after a resize '
+               'are outside the theorems and covered by stage C (state equality with the model) and stage S (prepared states) only',
                'n >= number of parameters (each parameter occupies at least one byte of the sequence)',
                'bytes are fed as `b as char`; an Avatar repeat count is one byte (<= 255)']
 RULE = ('stage S: the complete control-function table of the quantifier: every CSI final 0x40..=0x7E x intermediates {none,SP,$,*,?,=,!,<} x 0..6 parameters from '
@@ -30,10 +32,22 @@ RULE = ('stage S: the complete control-function table of the quantifier: every C
         'margins + scrollback), ANSI and Avatar; DCS macro shapes (text, hex, repeat groups with every magnitude, self- and mutually recursive, 3-way nesting), '
         'sixel raster/repeat headers, Avatar repeats with every count byte, custom-font DCS payloads and font headers, binary file headers with extreme '
         'width/height/font size for xb, idf, tnd, adf, bin, icy, ans, pcb, avt; every input < 64 bytes, each in a worker with 5 s / 1 GiB / default stack; '
-        'failure = timeout, oom, stack overflow, or line table growth beyond 64 x (rows + screen). '
+        'failure = timeout, oom, stack overflow, line table growth beyond 64 x (rows + largest text area) rows / cells, a row longer than 64 x 133, or a terminal-state '
+        'field (text area, buffer/layer size, caret, margins, tab count) beyond the largest text area the engine accepts (132 x 60) resp. the allocation limits; '
+        'the limits never come from the terminal size fields the input itself left. '
+        'PREPARED STATES: the same table on 40 states set up by a short prefix that is part of the measured input (text area resized wider/taller than the layer or shrunk, '
+        'cursor beyond the layer width / on the last row / restored after scrolling, rows extended by ECH/ICH, top/bottom and left/right margins incl. inverted, one-row, '
+        'zero and beyond-screen ones, insert mode, origin mode, auto-wrap off, scrollback, tab stops cleared/added, a macro defined, form feed): every control function '
+        'the engine implements (59) in EVERY state with the one-large-parameter tuple + sampled selector/large tuples (quick), every (final, intermediate) pair in every state (thorough); '
+        'PROBES: after each entry with a large parameter that was accepted or changed the observable state, probe suffixes (cursor far away + print, IL DL ICH DCH ECH SU SD SL SR CVT CUU '
+        'with a large count, LF, RI, HT + print, resize, ED, EL, DECERA, DECFRA) on the state it left, whole input < 64 bytes, same limits; a failure of the probe alone in that state is '
+        'attributed to the probe\'s function. '
         'stage C: CSI sequences of the modelled functions with parameters below/at/above every clamp: full state equality model vs code, '
         'rows/cells allocated <= model alloc, time <= 50 x calibrated tick time + 50 ms (reported; only a blown absolute limit counts); '
-        'clamped vs unclamped model on the same inputs. non-trivial = the sequence ran a loop at least twice or changed the line table')
+        'clamped vs unclamped model on the same inputs; STATE comparison (run_state vs kind c03st): every implemented control function in every prepared state '
+        '(+ random (final, intermediate) pairs, parameters up to 2^31-1, optional probe suffix): error count, caret, buffer/layer/terminal size, number of rows, margins, mode flags, '
+        'tab stops, every row length, content hash must be equal after the entry and after the probe, so a sequence the model rejects must be an error without effect in the code. '
+        'non-trivial = the sequence ran a loop at least twice or changed the line table')
 MODEL_IMPORTS = 'From IE Require Import Run.RunC03.\nLocal Open Scope Z_scope.'
 
 E = b'\x1b'
@@ -51,7 +65,12 @@ NAMES = {('', 'b'): 'REP', ('', 'S'): 'SU', ('', 'T'): 'SD', ('', '@'): 'ICH', (
          ('', 'Y'): 'CVT', ('', 'Z'): 'CBT', (' ', '@'): 'SL', (' ', 'A'): 'SR', ('', 'A'): 'CUU', ('', 'k'): 'CUU', ('', 'B'): 'CUD', ('', 'C'): 'CUF',
          ('', 'D'): 'CUB', ('', 'H'): 'CUP', ('', 'f'): 'CUP', ('', 'J'): 'ED', ('', 'K'): 'EL', ('', 't'): 'window', ('$', 'x'): 'DECFRA', ('$', 'z'): 'DECERA',
          ('$', '{'): 'DECSERA', ('*', 'y'): 'DECRQCRA', ('*', 'z'): 'macro-invoke', ('', 'r'): 'DECSTBM', ('', 'm'): 'SGR', ('', 'e'): 'VPR', ('', 'd'): 'VPA',
-         ('', 'E'): 'CNL', ('', 'F'): 'CPL', ('', 'G'): 'CHA', ('', 'a'): 'HPR', ('', "'"): 'HPA'}
+         ('', 'E'): 'CNL', ('', 'F'): 'CPL', ('', 'G'): 'CHA', ('', 'a'): 'HPR', ('', "'"): 'HPA',
+         # the rest of what the engine implements (every arm of ansi::Parser::print_char that is not the error arm)
+         ('', 'j'): 'HPB', ('', 's'): 'SCOSC/DECSLRM', ('', 'u'): 'SCORC', ('', 'n'): 'DSR', ('', 'N'): 'music-N', ('', '|'): 'music-bar', ('', 'c'): 'DA',
+         ('', 'h'): 'SM', ('', 'l'): 'RM', ('', '~'): 'KEY', ('', 'g'): 'TBC', ('?', 'l'): 'DECRST', ('?', 'h'): 'DECSET', ('?', 'n'): 'DECDSR',
+         ('=', 'n'): 'CTSMRR', ('=', 'r'): 'RSM', ('=', 'm'): 'SSM', ('<', 'c'): 'CTDA', ('!', 'p'): 'DECSTR', ('*', 'r'): 'DECSCS', ('$', 'w'): 'DECRQPSR',
+         (' ', 'D'): 'FNT', (' ', 'd'): 'TSR'}
 
 def fn_name(inter, final):
     return NAMES.get((inter, final), 'CSI%s%s' % (inter.replace(' ', 'SP'), final))
@@ -84,6 +103,89 @@ def tuples(rng, w, h, count, first_small_only=False):
     return out[:count] if not first_small_only else out
 
 KNOWN_SLOW = ('REP',)
+
+# ---- prepared states, probes (strengthening after the missed seeds: notes/C03.md) ---------------------------------------------------
+MAXW, MAXH = 132, 60          # the largest text area the engine accepts (CSI 8;h;w t clamps to it)
+SNAP = ['cx', 'cy', 'bw', 'bh', 'lw', 'lh', 'tw', 'th', 'nlines', 'mt', 'mb', 'ml', 'mr', 'flags', 'ntabs', 'rowsum', 'tabsum', 'maxrow', 'cells', 'hash']
+NS = len(SNAP)
+
+def prepared_states(w, h):
+    """(name, prefix): short prefixes (<= 27 bytes) that leave the terminal in a state a single control function on a fresh screen never sees.
+    Every prefix is part of the measured input: prefix + table entry + probe stay below 64 bytes."""
+    R = E + b'[8;60;132t'            # the maximum the engine accepts
+    RX = E + b'[8;99;999t'           # asks for more (clamped)
+    DN = E + b'[999B'; RT = E + b'[999C'
+    st = [('fresh', b''),
+          ('resized', RX),
+          ('resized+ech-row+col>=layer', R + E + b'[999X' + E + b'[100G'),
+          ('resized+ich-row+col>=layer', R + b'AB\r' + E + b'[99@' + E + b'[82G'),
+          ('resized+last-col', R + RT),
+          ('resized+last-row', R + DN),
+          ('resized+last-row+last-col', R + E + b'[999;999H'),
+          ('resized+text-beyond-layer', R + RT + b'XYZ'),
+          ('resized+insert+last-col', R + E + b'[4h' + RT),
+          ('resized+margins', R + E + b'[2;50r'),
+          ('resized+lr-margins-beyond-layer', R + E + b'[?69h' + E + b'[90;120s'),
+          ('resized+scrollback', R + DN + b'\n\n\n'),
+          ('shrunk', E + b'[8;1;1t'),
+          ('shrunk0+last-row', E + b'[8;0;0t' + DN),
+          ('last-row', DN),
+          ('last-row+last-col', E + b'[999;999H'),
+          ('scrollback', DN + b'\n' * 6),
+          ('scrollback+home', DN + b'\n' * 6 + E + b'[H'),
+          ('scrollback+restored-cursor', E + b'7' + DN + b'\n' * 6 + E + b'8'),
+          ('scrollback+restored-pos', E + b'[s' + DN + b'\n' * 6 + E + b'[u'),
+          ('ech-row', E + b'[999X'),
+          ('ich-row+last-col', b'AB\r' + E + b'[99@' + RT),
+          ('margins', E + b'[2;5r'),
+          ('margins-inverted', E + b'[5;2r'),
+          ('margins-one-row', E + b'[1;1r'),
+          ('margins-zero', E + b'[0;0r'),
+          ('margins-beyond', E + b'[2;9999r'),
+          ('margins+scrollback', E + b'[2;5r' + E + b'[5H' + b'\n' * 4),
+          ('lr-margins', E + b'[?69h' + E + b'[2;5s'),
+          ('lr-margins-inverted', E + b'[?69h' + E + b'[9;2s'),
+          ('lr-margins-beyond', E + b'[?69h' + E + b'[1;9999s'),
+          ('margins+lr-margins+inside', E + b'[2;5r' + E + b'[?69h' + E + b'[2;5s' + E + b'[3;3H'),
+          ('insert-mode', E + b'[4h' + b'ABC\r'),
+          ('origin+margins', E + b'[?6h' + E + b'[2;5r'),
+          ('nowrap+last-col', E + b'[?7l' + RT),
+          ('tabs-cleared', E + b'[3g'),
+          ('tab-stops-set', b'A' + E + b'H' + b'AA' + E + b'H' + b'\r'),
+          ('macro', E + b'P1;0;0!zA' + E + b'\\'),
+          ('formfeed', b'\x0c'),
+          ('formfeed+last-row', b'\x0c' + DN)]
+    return st
+
+PROBES = [('cup+print', E + b'[999999;999999HA'), ('cud+print', E + b'[999999BA'), ('cuf+print', E + b'[999999CA'), ('cuu', E + b'[999999A'),
+          ('IL', E + b'[999999L'), ('DL', E + b'[999999M'), ('ICH', E + b'[999999@'), ('DCH', E + b'[999999P'), ('ECH', E + b'[999999X'),
+          ('SU', E + b'[999999S'), ('SD', E + b'[999999T'), ('SL', E + b'[999999 @'), ('SR', E + b'[999999 A'), ('CVT', E + b'[999999Y'),
+          ('lf', b'\n\n\n'), ('ri', E + b'M' + E + b'M'), ('tab+print', b'\tA'), ('resize', E + b'[8;999;999t'),
+          ('ED', E + b'[J'), ('ED1', E + b'[1J'), ('EL', E + b'[K'), ('DECERA', E + b'[1;1;99999;99999$z'), ('DECFRA', E + b'[65;1;1;99999;99999$x')]
+
+NAMED = sorted(NAMES)       # the (intermediate, final) pairs the engine gives a meaning to
+PROBE_FN = {'cup+print': 'CUP', 'cud+print': 'CUD', 'cuf+print': 'CUF', 'cuu': 'CUU', 'lf': 'LF', 'ri': 'RI', 'tab+print': 'HT', 'resize': 'window', 'ED1': 'ED'}
+
+def state_tuples(rng, w, h, k, name):
+    """k parameter tuples for one table entry in a prepared state; the first ones carry the large values"""
+    B = 2147483647
+    # many functions read their first parameter as a selector (CSI 8;h;w t, CSI = k;v m, ED/EL/TBC/DSR modes): small first, large second
+    base = [(B,), (1000000,), (B, B), (0, B), (1, B), (2, B), (3, B), (8, B, B), (B, 1), (65536,), (), (1, 1, B, B), (65, 1, 1, B, B), (0,), (1,), (4, B), (5, B)]
+    vals = [0, 1, 2, h - 1, h, h + 1, w - 1, w, w + 1, MAXH, MAXW, MAXW + 1, 24, 100, w * h, 65536, 1000000, B]
+    out = list(base[:k])
+    while len(out) < k:
+        r = rng.random()
+        if r < 0.3: out.append((rng.randint(0, 9),) + tuple(rng.choice([65536, 1000000, B]) for _ in range(rng.choice([1, 1, 2]))))
+        else: out.append(tuple(rng.choice(vals) for _ in range(rng.choice([1, 1, 2, 3, 4]))))
+    if name in KNOWN_SLOW:      # REP beyond the screen is a known class in every state (the fresh-screen table keeps reporting it)
+        out = [((min(t[0], 3000),) + t[1:]) if t else t for t in out]
+    return out
+
+def is_big(t):
+    return any(p is not None and p >= 65536 for p in t)
+
+def st_case(emu, w, h, cut, data):
+    return 'c03st %d %d %d %d %s' % (emu, w, h, cut, hx(data))
 
 def csi_table(ctx, per):
     """the control-function table: list of (name, emu, w, h, prefix, seq)"""
@@ -237,8 +339,15 @@ def classify(name, case, r, w=80, h=25):
         tw_, th_ = v[15], v[16]
         if el > 5_000_000:
             return {'signature': 'C03-timeout:%s' % name, 'input': case, 'impl': v, 'detail': 'took %d us' % el}
-        lim_rows = 64 * (rows0 + th_ + 1)
-        lim_cells = 64 * (rows0 + th_ + 1) * (tw_ + 1)
+        # the limits come from the screen the case started with and the largest text area the engine accepts, NOT from the
+        # terminal size fields after the input (an input that inflates them must not inflate its own limits)
+        cw, chh = int(case.split()[2]), int(case.split()[3])
+        W = max(cw, MAXW); H = max(chh, MAXH)
+        if tw_ > W or th_ > H:
+            return {'signature': 'C03-state:%s' % name, 'input': case, 'impl': v, 'expected': 'text area at most %d x %d' % (W, H),
+                    'detail': 'the input left a text area of %d x %d: every later screen-size clamp is bounded by these numbers' % (tw_, th_)}
+        lim_rows = 64 * (rows0 + H + 1)
+        lim_cells = 64 * (rows0 + H + 1) * (W + 1)
         if rows1 - rows0 > lim_rows or cells1 - cells0 > lim_cells or v[12] > (256 << 20):
             return {'signature': 'C03-alloc:%s' % name, 'input': case, 'impl': v,
                     'expected': 'line table grows by at most %d rows / %d cells, sixel image <= 256 MiB' % (lim_rows, lim_cells),
@@ -251,10 +360,146 @@ def classify(name, case, r, w=80, h=25):
             return {'signature': 'C03-alloc:%s' % name, 'input': case, 'impl': v, 'detail': 'a file of %s bytes loads as %d rows / %d cells' % (case_len(case), v[3], v[6])}
     return None
 
+def classify_st(name, case, r, what=''):
+    """oracle for kind c03st (whole input measured from a fresh screen) -> failure dict or None"""
+    if r is None:
+        return {'signature': 'C03-noresult:%s' % name, 'input': case, 'impl': None, 'detail': 'no result from the worker ' + what}
+    cls = r[0]
+    if cls in BAD:
+        c = 'oom' if cls in ('abort', 'killed') and 'alloc' in str(r[1]) else cls
+        return {'signature': 'C03-%s:%s' % (c, name), 'input': case, 'impl': list(r), 'expected': 'returns within 5 s, below 1 GiB, on the default stack',
+                'detail': 'input of %s bytes; %s' % (case_len(case), what)}
+    if cls != 'ok':
+        return None
+    v = r[1]
+    p = case.split()
+    w, h = int(p[2]), int(p[3])
+    W = max(w, MAXW); H = max(h, MAXH)
+    lim_rows = 64 * (h + H + 1); lim_cells = lim_rows * (W + 1); lim_rowlen = 64 * (W + 1)
+    if v[0] > 5_000_000:
+        return {'signature': 'C03-timeout:%s' % name, 'input': case, 'impl': v[:48], 'detail': 'took %d us; %s' % (v[0], what)}
+    if v[1] > (512 << 10) or v[2] > (256 << 20):
+        return {'signature': 'C03-oom:%s' % name, 'input': case, 'impl': v[:48], 'detail': 'resident set grew by %d KiB, sixel image %d bytes; %s' % (v[1], v[2], what)}
+    for off in (4, 5 + NS):
+        sn = dict(zip(SNAP, v[off:off + NS]))
+        if sn['nlines'] - h > lim_rows or sn['cells'] - w * h > lim_cells or sn['maxrow'] > lim_rowlen:
+            return {'signature': 'C03-alloc:%s' % name, 'input': case, 'impl': v[:48],
+                    'expected': 'line table grows by at most %d rows / %d cells, no row longer than %d' % (lim_rows, lim_cells, lim_rowlen),
+                    'detail': 'rows %d -> %d, cells %d -> %d, longest row %d; %s' % (h, sn['nlines'], w * h, sn['cells'], sn['maxrow'], what)}
+        # state fields every later clamp relies on: bounded by the largest text area / the allocation limits, whatever the parameters were
+        bounds = {'tw': W, 'th': H, 'bw': W, 'lw': W, 'cx': W, 'bh': lim_rows + h, 'lh': lim_rows + h, 'cy': lim_rows + h,
+                  'mt': lim_rows + h, 'mb': lim_rows + h, 'ml': W, 'mr': W, 'ntabs': W + 64}
+        for k, b in bounds.items():
+            if abs(sn[k]) > b:
+                return {'signature': 'C03-state:%s' % name, 'input': case, 'impl': v[:48], 'expected': '|%s| <= %d' % (k, b),
+                        'detail': 'the input left %s = %d (text area %d x %d, %d rows): a state field later bounds rely on follows a parameter; %s'
+                                  % (k, sn[k], sn['tw'], sn['th'], sn['nlines'], what)}
+    return None
+
 def case_len(case):
     p = case.split()
     hexs = p[-1]
     return 0 if hexs == '-' else len(hexs) // 2
+
+def run_chunked(ctx, items, oracle, chunk=2000, stop_after=3):
+    """items: (name, case, what). Runs them in chunks; once a control function has failed `stop_after` times its remaining cases are
+    skipped (a broken clamp fails in many states: each timeout costs 5 s). -> results aligned with items (None = skipped), failures"""
+    res = [None] * len(items); fails = []; count = {}; ran = 0
+    for a in range(0, len(items), chunk):
+        idx = [i for i in range(a, min(len(items), a + chunk)) if count.get(items[i][0], 0) < stop_after]
+        if not idx: continue
+        out = ctx.impl([items[i][1] for i in idx], per_case_timeout=5, mem_mb=1024)
+        ran += len(idx)
+        for i, r in zip(idx, out):
+            res[i] = r if r is not None else ('noresult', '')
+            f = oracle(items[i][0], items[i][1], r, items[i][2])
+            if f is not None:
+                fails.append(f); count[items[i][0]] = count.get(items[i][0], 0) + 1
+    return res, fails, ran
+
+def blame(ctx, fails, alone):
+    """who is to blame for a failure with a probe suffix: if the probe fails in that state WITHOUT the table entry, it is the probe's own
+    control function. alone: case -> (probe function, case of state + probe). Rewrites signature / input in place; -> cases run"""
+    todo = sorted({alone[f['input']] for f in fails if alone.get(f['input'])})
+    if not todo: return 0
+    out = ctx.impl([c for _, c in todo], per_case_timeout=5, mem_mb=1024)
+    guilty = {c: fn for (fn, c), r in zip(todo, out) if classify_st(fn, c, r) is not None}
+    for f in fails:
+        fn_c = alone.get(f['input'])
+        if not fn_c: continue
+        if fn_c[1] in guilty:
+            f['signature'] = f['signature'].split(':', 1)[0] + ':' + fn_c[0]
+            f['detail'] += ' [the probe alone fails in this state: attributed to %s]' % fn_c[0]
+            f['input'] = fn_c[1]
+        else:
+            f['detail'] += ' [the probe alone is within the limits in this state: the entry left a state that makes it expensive]'
+    return len(todo)
+
+def state_sweep(ctx):
+    """the control-function table on the prepared states (phase 1), then probe suffixes on the state each accepted / state-changing
+    entry with a large parameter left (phase 2). Every input is fed to a fresh screen and measured as a whole; all < 64 bytes."""
+    rng = ctx.rng
+    mode = 'thorough' if ctx.thorough else ('escalated' if ctx.escalated else 'quick')
+    k_named, k_other, all_states_other, k_probe_named, k_probe_other, cap2 = {
+        'quick': (3, 6, False, 2, 1, 8000), 'escalated': (6, 16, False, 4, 2, 16000), 'thorough': (17, 3, True, 10, 3, 90000)}[mode]
+    sizes = [(80, 25), (80, 25), (40, 24), (5, 3), (80, 25), (132, 60)]
+    # phase 0: the prepared states themselves (a prefix that is over the limits is reported under its own name and not used further)
+    items0 = [('prepared-state(%s)' % sn, st_case(0, w, h, len(sp), sp), 'the state prefix alone, %d x %d screen' % (w, h))
+              for w, h in sorted(set(sizes)) for sn, sp in prepared_states(w, h)]
+    _, fails0, ran0 = run_chunked(ctx, items0, classify_st, stop_after=1 << 30)
+    bad_states = {f['signature'].split('(', 1)[1][:-1] for f in fails0}
+    items = []; info = []
+    for fi, f in enumerate(FINALS):
+        for ii, inter in enumerate(INTER):
+            final = chr(f); name = fn_name(inter, final)
+            named = (inter, final) in NAMES
+            w, h = sizes[(fi + ii) % len(sizes)]
+            sts = [x for x in prepared_states(w, h) if x[0] not in bad_states]
+            if named or all_states_other:
+                combos = []
+                for si, (sn, sp) in enumerate(sts):
+                    ww, hh = sizes[(fi + ii + si) % len(sizes)]
+                    ts = state_tuples(rng, ww, hh, k_named if named else k_other, name)
+                    if mode == 'quick':      # the first (one large parameter) always, the others sampled from the large ones
+                        ts = [ts[0]] + rng.sample(state_tuples(rng, ww, hh, 12, name)[1:], k_named - 1)
+                    combos += [(sn, sp, ww, hh, t) for t in ts]
+            else:
+                combos = []
+                for _ in range(k_other):
+                    sn, sp = rng.choice(sts)
+                    ww, hh = rng.choice(sizes)
+                    combos.append((sn, sp, ww, hh, rng.choice(state_tuples(rng, ww, hh, 20, name))))
+            for k, (sn, sp, ww, hh, t) in enumerate(combos):
+                ent = csi(inter, final, t)
+                if len(sp) + len(ent) >= 64: continue
+                emu = 1 if (k % 11 == 10) else 0
+                items.append((name, st_case(emu, ww, hh, len(sp), sp + ent), 'state %s, entry %r' % (sn, ent)))
+                info.append((named, emu, ww, hh, sp, ent, t, sn))
+    res, fails, ran = run_chunked(ctx, items, classify_st)
+    failed_names = {f['signature'].split(':', 1)[1] for f in fails}
+    # phase 2: the entry was accepted (no new error value) or changed the observable state, and carried a large parameter
+    items2 = []
+    nontriv = set()
+    for (name, case, what), r, (named, emu, ww, hh, sp, ent, t, sn) in zip(items, res, info):
+        if not r or r[0] != 'ok': continue
+        v = r[1]
+        changed = v[4:4 + NS] != v[5 + NS:5 + 2 * NS]
+        accepted = v[3] == v[4 + NS]
+        if changed: nontriv.add(case)
+        if not (changed or accepted) or not is_big(t) or name in failed_names: continue
+        fit = [(pn, pb) for pn, pb in PROBES if len(sp) + len(ent) + len(pb) < 64 and PROBE_FN.get(pn, pn) not in failed_names]
+        kp = k_probe_named if named else k_probe_other
+        for pn, pb in (rng.sample(fit, kp) if len(fit) > kp else fit):
+            items2.append((name, st_case(emu, ww, hh, len(sp) + len(ent), sp + ent + pb), 'state %s, entry %r, probe %s %r' % (sn, ent, pn, pb),
+                           (PROBE_FN.get(pn, pn), st_case(emu, ww, hh, len(sp), sp + pb))))
+    if len(items2) > cap2:
+        items2 = rng.sample(items2, cap2)
+    res2, fails2, ran2 = run_chunked(ctx, [it[:3] for it in items2], classify_st)
+    ran2 += blame(ctx, fails2, {it[1]: it[3] for it in items2})
+    return {'cases': ran0 + ran + ran2, 'failures': fails0 + fails + fails2, 'nontrivial': len(nontriv),
+            'table': '%d prepared states x %d (final, intermediate) pairs: %d inputs; %d inputs with a probe suffix (%d probes)' % (
+                len(prepared_states(80, 25)), len(FINALS) * len(INTER), ran, ran2, len(PROBES)),
+            'samples': [items[0][1][:200]] + ([items2[0][1][:200]] if items2 else [])}
 
 def search(ctx, broken):
     per = ctx.n(20, 150)
@@ -267,7 +512,13 @@ def search(ctx, broken):
     for b in broken:
         d = b.get('detail') or {}
         if isinstance(d, dict) and str(d.get('case', '')).startswith('seq '):
-            first.append(('stage-C-disagreement', d['case']))
+            first.append((d.get('name') or 'stage-C-disagreement', d['case']))
+    first_st = []; first_alone = {}
+    for b in broken:
+        d = b.get('detail') or {}
+        if isinstance(d, dict) and str(d.get('case', '')).startswith('c03st '):
+            first_st.append((d.get('name') or 'stage-C-disagreement', d['case'], 'stage C disagreed on this input'))
+            if d.get('probe_alone'): first_alone[d['case']] = tuple(d['probe_alone'])
     # known-slow cases: consecutive positions go to different workers
     meta = first + slow + meta
     cases = [c for _, c in meta]
@@ -280,11 +531,19 @@ def search(ctx, broken):
             failures.append(f); continue
         if r and r[0] == 'panic': panics += 1
         if r and r[0] == 'ok' and c.startswith('seq ') and (r[1][1] != r[1][2] or r[1][3] != r[1][4] or r[1][0] > 200): nontriv.add(c)
+    # the inputs stage C disagreed on (kind c03st), then the table on the prepared states + probe suffixes
+    if first_st:
+        _, f0, _ = run_chunked(ctx, first_st, classify_st)
+        blame(ctx, f0, first_alone)
+        failures += f0
+    sw = state_sweep(ctx)
+    failures += sw['failures']
     failures.sort(key=lambda f: (f['signature'], len(str(f['input']))))
-    return {'cases': len(cases), 'failures': failures, 'distinct_nontrivial': len(nontriv),
-            'samples': [cases[0][:200], cases[len(cases) // 2][:200], cases[-1][:200]],
+    return {'cases': len(cases) + len(first_st) + sw['cases'], 'failures': failures, 'distinct_nontrivial': len(nontriv) + sw['nontrivial'],
+            'samples': [cases[0][:200], cases[len(cases) // 2][:200], cases[-1][:200]] + sw['samples'],
             'control_functions': len({n for n, _ in meta}), 'panics_seen_not_C03': panics,
-            'table': '%d CSI (final, intermediate) pairs x >= %d tuples; %d special inputs; %d known-slow' % (len(FINALS) * len(INTER), per, len(spec), len(slow))}
+            'table': '%d CSI (final, intermediate) pairs x >= %d tuples; %d special inputs; %d known-slow' % (len(FINALS) * len(INTER), per, len(spec), len(slow)),
+            'prepared_states_table': sw['table']}
 
 # ---- stage C -----------------------------------------------------------------------------------------------------------------------
 MODELLED = [('', 'S'), ('', 'T'), ('', '@'), ('', 'P'), ('', 'L'), ('', 'M'), ('', 'Y'), ('', 'Z'), ('', 'A'), ('', 'k'), ('', 'b'), (' ', '@'), (' ', 'A'),
@@ -297,6 +556,73 @@ def c_setups(w, h):
             text + E + b'[2;%dr' % max(2, h - 1) + E + b'[3;2H',
             b'AB\r\nCDEF\r\nGH' + E + b'[?69h' + E + b'[2;%ds' % max(2, w - 1) + E + b'[1;2H',
             b'\x0c' + b'XY\r\nZ' + E + b'H' + E + b'[1;1H']
+
+def state_corr_cases(ctx):
+    """short inputs (prepared state + table entry [+ probe suffix], < 64 bytes, fed to a fresh screen) whose resulting STATE is compared
+    between the cost model (run_state) and the code (c03st): (name, w, h, a, b, description)"""
+    rng = ctx.rng
+    B = 2147483647
+    sizes = [(80, 25), (80, 25), (40, 24), (10, 4), (5, 3), (20, 6)]
+    small = [(40, 24), (10, 4), (5, 3), (20, 6), (10, 4)]
+    SCROLLERS = ('SU', 'SD', 'SL', 'SR', 'CUU', 'cuu', 'ri', 'REP')
+    meta = []
+    nstates = len(prepared_states(80, 25))
+    def add(inter, final, t, with_probe, si=None):
+        name = fn_name(inter, final)
+        if name in KNOWN_SLOW and t: t = (min(t[0], 300),) + t[1:]
+        for _ in range(20):
+            pn, pb = rng.choice(PROBES) if with_probe else ('-', b'')
+            # the model's scrolls walk lists cell by cell: the scroll functions get the small screens
+            w, h = rng.choice(small if (name in SCROLLERS or pn in SCROLLERS) else sizes)
+            sn, sp = prepared_states(w, h)[si] if si is not None else rng.choice(prepared_states(w, h))
+            ent = csi(inter, final, t)
+            if len(sp) + len(ent) + len(pb) < 64:
+                meta.append((name, w, h, sp + ent, pb, 'state %s, entry %r, probe %s' % (sn, ent, pn),
+                             [PROBE_FN.get(pn, pn), st_case(0, w, h, len(sp), sp + pb)] if pb else None))
+                return
+    def vals(w, h):
+        return [0, 1, 2, h - 1, h, h + 1, w - 1, w, w + 1, 24, MAXH, MAXH + 1, 100, MAXW, MAXW + 1, w * h, 3000, 65536, 1000000, B]
+    # every control function the engine gives a meaning to: one large parameter, one moderate one, a longer tuple
+    # in EVERY prepared state (quick: one of the three tuple shapes per (function, state), thorough: all three)
+    for k, (inter, final) in enumerate(NAMED):
+        for si in range(nstates):
+            v = vals(80, 25)
+            shapes = [((B,), 0.6), ((rng.choice(v[2:16]),), 0.4), (tuple(rng.choice(v) for _ in range(rng.choice([2, 3, 4]))), 0.4)]
+            for j, (t, pp) in enumerate(shapes):
+                if ctx.thorough or ctx.escalated or (k + si + ctx.seed) % 3 == j:
+                    add(inter, final, t, rng.random() < pp, si)
+    # any (final, intermediate) pair, named or not: what the model treats as unsupported must be an error without effect in the code too
+    for _ in range(ctx.n(400, 2000)):
+        inter = rng.choice(INTER); final = chr(rng.choice(FINALS))
+        v = vals(80, 25)
+        t = tuple(rng.choice(v) for _ in range(rng.choice([0, 1, 1, 1, 2, 3])))
+        add(inter, final, t, rng.random() < 0.5)
+    return meta
+
+def state_corr(ctx, meta, impl, model):
+    """-> disagreements, number of non-trivial cases"""
+    dis = []; nontriv = 0
+    labels = ['errors'] + SNAP + ['errors(end)'] + [x + '(end)' for x in SNAP]
+    for (name, w, h, a, b, desc, alone), r, m in zip(meta, impl, model):
+        c = st_case(0, w, h, len(a), a + b)
+        base = {'case': c, 'name': name, 'what': desc, 'probe_alone': alone}
+        if m is None:
+            dis.append(dict(base, impl=list(r) if r else None, model=None, what='model evaluation failed; ' + desc)); continue
+        if m[0] < 0:
+            if r and r[0] == 'panic': continue
+            dis.append(dict(base, impl=list(r)[:2] if r else None, model=m, what='model panics/diverges, implementation does not; ' + desc)); continue
+        if r is None or r[0] != 'ok':
+            dis.append(dict(base, impl=list(r) if r else None, model=m[:2 + NS],
+                            what='implementation did not return (%s); the model reaches a state with %d rows; ' % (r[0] if r else None, m[2 + 8]) + desc)); continue
+        v = r[1][3:]; mm = m[1:]
+        if v != mm:
+            k = next((i for i, (x, y) in enumerate(zip(v, mm)) if x != y), min(len(v), len(mm)))
+            lab = labels[k] if k < len(labels) else 'row lengths / tab stops'
+            dis.append(dict(base, impl=v[:2 * NS + 2], model=mm[:2 * NS + 2],
+                            what='state after the input differs: %s = %s (code) vs %s (model); ' % (lab, v[k] if k < len(v) else None, mm[k] if k < len(mm) else None) + desc)); continue
+        if v[1:1 + NS] != [0, 0, w, h, w, h, w, h, h] + v[10:1 + NS] or True:
+            nontriv += 1
+    return dis, nontriv
 
 def correspondence(ctx):
     rng = ctx.rng
@@ -328,8 +654,13 @@ def correspondence(ctx):
     calib = ['calib 20000'] * 3
     hex_cases = ['seq 0 80 25 - %s' % hx(E + b'P1;0;1!z' + s + E + b'\\' + E + b'[1*z') for s in hexs]
     glyph_cases = ['font %s' % hx(b'\x36\x04\x00' + bytes([hh]) + b'\x00' * nn) for hh, nn in glyphs]
-    impl = ctx.impl(cases + hex_cases + glyph_cases + calib, per_case_timeout=5)
-    model = ctx.model(MODEL_IMPORTS, exprs + exprs_old + extra_exprs, timeout=900)
+    smeta = state_corr_cases(ctx)
+    st_cases = [st_case(0, w, h, len(a), a + b) for _, w, h, a, b, _, _ in smeta]
+    st_exprs = ['run_state %d %d %s %s' % (w, h, zl(a), zl(b)) for _, w, h, a, b, _, _ in smeta]
+    impl = ctx.impl(cases + hex_cases + glyph_cases + calib + st_cases, per_case_timeout=5)
+    model = ctx.model(MODEL_IMPORTS, exprs + exprs_old + extra_exprs + st_exprs, timeout=900)
+    impl_st = impl[len(impl) - len(st_cases):]; impl = impl[:len(impl) - len(st_cases)]
+    model_st = model[len(model) - len(st_exprs):]
     tref = min([r[1][0] for r in impl[-3:] if r and r[0] == 'ok'] or [20000])
     per_tick = max(0.05, tref / 20000.0)          # microseconds per printed character in this run
     dis = []; nontriv = set(); ratios = []; outliers = 0; dist = {}
@@ -385,8 +716,12 @@ def correspondence(ctx):
             dis.append({'case': glyph_cases[j], 'impl': r, 'model': m, 'what': 'glyph case failed'}); continue
         if r[1][1] == 1 and g[0] > 0 and g[0] in (8, 14, 16) and False:
             pass
+    # state after short inputs in prepared states (model run_state vs kind c03st)
+    sdis, snontriv = state_corr(ctx, smeta, impl_st, model_st)
+    dis = sdis + dis
+    dist['state-comparison inputs (prepared state + entry + probe)'] = len(smeta)
     ratios.sort()
-    return {'cases': len(cases) + len(old) + len(hexs) + len(glyphs), 'disagreements': dis, 'distinct_nontrivial': len(nontriv),
+    return {'cases': len(cases) + len(old) + len(hexs) + len(glyphs) + len(smeta), 'disagreements': dis, 'distinct_nontrivial': len(nontriv) + snontriv,
             'distribution': {'per_control_function': dist, 'calibration_us_per_tick': round(per_tick, 4),
                              'time_over_model_ratio_median': round(ratios[len(ratios) // 2], 3) if ratios else None,
                              'time_over_model_ratio_max': round(ratios[-1], 3) if ratios else None,
@@ -399,11 +734,14 @@ def replay(ctx, body):
     import json
     inp = body.get('input')
     print('replay', ID, inp)
-    if isinstance(inp, str) and inp.split()[0] in ('seq', 'load', 'font', 'c03sixel', 'feed'):
+    if isinstance(inp, str) and inp.split()[0] in ('seq', 'load', 'font', 'c03sixel', 'feed', 'c03st'):
         ok, out = driver.stage_build()
         r = ctx.impl([inp], per_case_timeout=5, mem_mb=1024)[0]
-        print('implementation:', r)
-        f = classify(body.get('signature', 'C03-?:?').split(':')[-1], inp, r)
+        print('implementation:', (r[0], r[1][:48]) if r and r[0] == 'ok' else r)
+        if inp.startswith('c03st '):
+            pp = inp.split()
+            print('input bytes:', bytes.fromhex(pp[5]) if pp[5] != '-' else b'', '(%s x %s screen)' % (pp[2], pp[3]))
+        f = (classify_st if inp.startswith('c03st ') else classify)(body.get('signature', 'C03-?:?').split(':')[-1], inp, r)
         print('oracle:', f['signature'] if f else 'within the limits')
         return 1 if f else 0
     print(json.dumps(body, indent=1))
@@ -417,6 +755,8 @@ LEVEL_TEXT = ('PARTIAL (by design: time and memory are runtime facts). Machine-c
               'are refuted classes with witnesses; glyph loading, Avatar repeat, window resize, rectangular areas are bounded. The property\'s own limits '
               '(5 s, 1 GiB, stack) are applied to the complete control-function table on the real code by stage S.')
 LEVEL_NOTE = ('Theorems speak about iteration/allocation counts of the model; the tie to the code is stage C (full state equality after each sequence, '
-              'allocation one-sided, time one-sided with a 50x calibrated factor) and stage S (absolute limits on the real code). Known classes: REP, hex-macro repeat, '
-              'macro recursion, sixel raster/repeat.')
-TECHNIQUE = 'Coq proof over tick-annotated model functions (arithmetic bounds from the C09 invariant) + exhaustive control-function table under process limits'
+              'allocation one-sided, time one-sided with a 50x calibrated factor; full terminal-state equality after short inputs in 40 prepared states incl. resized text areas) '
+              'and stage S (absolute limits on the real code: single control functions, the same in prepared states, and probe suffixes on the state they leave). '
+              'Known classes: REP, hex-macro repeat, macro recursion, sixel raster/repeat.')
+TECHNIQUE = ('Coq proof over tick-annotated model functions (arithmetic bounds from the C09 invariant) + exhaustive control-function table under process limits, '
+             'on a fresh screen and on prepared states, with probe suffixes and terminal-state comparison against the model')
